@@ -109,7 +109,8 @@ func inside(loc models.Location, input string) bool {
 		return false
 	}
 	l := lines[loc.Line-1]
-	return loc.Column >= 1 && loc.Column <= len(l)+1
+	// the tokenizer counts a tab as four columns (columnWidth): the width of a line with tabs is not its byte length
+	return loc.Column >= 1 && loc.Column <= len(l)+3*strings.Count(l, "\t")+1
 }
 
 func checkInput(c *common.Ctx, input, class string) {
